@@ -81,6 +81,8 @@ static unsigned vg_n0;
    Woven ghost statements (contracts/lib/lh_new_decoder.c.spec, all under #ifdef VG_TBL_FUNC) assign only these. */
 int vg_tX;                          /* Skolem index, 0 <= vg_tX < size of the reader's code_lengths[] */
 int vg_t_nfield, vg_t_symfield;     /* count field as read; single-symbol field as read (count == 0 form) */
+unsigned vg_t_w;                    /* width argument of the latest read_bits call (wrapper macro woven under VG_TBL_FUNC) */
+unsigned vg_t_nfield_w, vg_t_symfield_w, vg_t_skip_w;   /* widths with which the count, single-symbol and temp-table skip fields were read */
 int vg_t_next;                      /* format cursor: the index the next length field / command starts at (tiling) */
 int vg_t_nf, vg_t_nskip, vg_t_skip_at;  /* temp table: length fields read so far; skip fields read; #length fields before the skip field */
 int vg_t_kind, vg_t_val;            /* temp/offset table, cell vg_tX: 1 = a length field with value vg_t_val, 0 = zero inserted by the skip field, -1 = not covered */
@@ -88,7 +90,7 @@ int vg_t_cur;                       /* code table: temp-tree symbol of the comma
 int vg_t_sym, vg_t_start, vg_t_span, vg_t_cls, vg_t_bits;  /* code table, the command covering vg_tX: symbol, first index, span as given by
                                        the format (before the cut at n), class read_skip_count was called with, its extra bits */
 int vg_t_failed, vg_t_over;         /* a field read reported end of input; a field/command was read although the cursor had reached n */
-int vg_t_bt_calls, vg_t_bt_n, vg_t_bt_len;   /* build_tree: number of calls, the count handed over, cell vg_tX of the array handed over */
+int vg_t_bt_calls, vg_t_bt_n, vg_t_bt_len;   /* build_tree (wrapper macro woven under VG_TBL_FUNC): number of calls, the count argument, cell vg_tX of the array argument */
 int vg_skip_cls, vg_skip_ret, vg_skip_bits;  /* read_skip_count: class argument, return value, what read_bits returned for the extra bits */
 /* effective table size: the count field clamped to the array size */
 #define VG_T_N(MAX) (vg_t_nfield > (int) (MAX) ? (int) (MAX) : vg_t_nfield)
@@ -212,6 +214,7 @@ static void vg_tbl_havoc(void)
 	vg_t_cls = nondet_int(); vg_t_bits = nondet_int(); vg_t_failed = nondet_int(); vg_t_over = nondet_int();
 	vg_t_bt_calls = nondet_int(); vg_t_bt_n = nondet_int(); vg_t_bt_len = nondet_int();
 	vg_skip_cls = nondet_int(); vg_skip_ret = nondet_int(); vg_skip_bits = nondet_int();
+	vg_t_w = nondet_uint(); vg_t_nfield_w = nondet_uint(); vg_t_symfield_w = nondet_uint(); vg_t_skip_w = nondet_uint();
 }
 void h_read_temp_table_func(void) { LHANewDecoder *d; vg_tbl_havoc(); read_temp_table(d); VG_CANARY("read_temp_table_func"); }
 void h_read_code_table_func(void) { LHANewDecoder *d; vg_tbl_havoc(); read_code_table(d); VG_CANARY("read_code_table_func"); }
